@@ -115,8 +115,11 @@ def ensure_build(variant="std"):
         cflags = "-O1 -g -D%s" % GUARD
         ldflags = ""
         if variant == "asan":
-            cflags = "-O1 -g -fsanitize=address,undefined -fno-sanitize-recover=undefined -fno-omit-frame-pointer -D%s" % GUARD
-            ldflags = "-fsanitize=address,undefined"
+            # memory-safety instrumentation only: AddressSanitizer plus the UBSan checks that concern bounds and null;
+            # alignment, shift and signed-overflow reports are not memory-safety violations
+            san = "address,bounds,null,unreachable,vla-bound"
+            cflags = "-O1 -g -fsanitize=%s -fno-sanitize-recover=bounds,null,unreachable,vla-bound -fno-omit-frame-pointer -D%s" % (san, GUARD)
+            ldflags = "-fsanitize=%s" % san
         if not os.path.exists(os.path.join(src, "config.status")):
             rc, out = sh("./configure --disable-nls --disable-fuse2fs CFLAGS='%s' LDFLAGS='%s' >configure.out 2>&1" % (cflags, ldflags),
                          cwd=src, timeout=600)
